@@ -6,6 +6,7 @@ import (
 	"context"
 
 	"0chain.net/chaincore/block"
+	"github.com/0chain/common/core/util"
 )
 
 // VerifFinalizeBlock runs finalizeBlock (records the dead nodes of the block at its round). No logic.
@@ -15,3 +16,6 @@ func (c *Chain) VerifFinalizeBlock(ctx context.Context, fb *block.Block, bsh Blo
 
 // VerifPruneClientState runs pruneClientState. No logic.
 func (c *Chain) VerifPruneClientState(ctx context.Context) { c.pruneClientState(ctx) }
+
+// VerifSetStateDB replaces the chain's state node DB (a recording wrapper around it). No logic.
+func (c *Chain) VerifSetStateDB(db util.NodeDB) { c.stateDB = db }
